@@ -184,9 +184,16 @@ func (t *Total) Negate() *Total {
 	for _, ct := range nt.Categories {
 		ct.Amount = ct.Amount.Negate()
 		ct.amount = ct.amount.Negate()
+		if ct.Surcharge != nil {
+			ns := ct.Surcharge.Negate()
+			ct.Surcharge = &ns
+		}
 		for _, rt := range ct.Rates {
 			rt.Base = rt.Base.Negate()
 			rt.Amount = rt.Amount.Negate()
+			if rt.Surcharge != nil {
+				rt.Surcharge.Amount = rt.Surcharge.Amount.Negate()
+			}
 		}
 	}
 	nt.Sum = t.Sum.Negate()
@@ -234,7 +241,10 @@ func (t *Total) Clone() *Total {
 		nt.Categories[i].Retained = ct.Retained
 		nt.Categories[i].Amount = ct.Amount
 		nt.Categories[i].amount = ct.amount
-		nt.Categories[i].Surcharge = ct.Surcharge
+		if ct.Surcharge != nil {
+			sc := *ct.Surcharge
+			nt.Categories[i].Surcharge = &sc
+		}
 		nt.Categories[i].Rates = make([]*RateTotal, len(ct.Rates))
 		for j, rt := range ct.Rates {
 			nt.Categories[i].Rates[j] = new(RateTotal)
